@@ -583,6 +583,24 @@ impl Context {
                 };
                 (format!("({stream}.inner() as {target})").into(), true)
             }
+            // a list constant is emitted as an array; a field that takes it as its
+            // default value holds a `Vec`
+            (CodegenTy::Array(el, _), CodegenTy::Vec(t)) if el == t => {
+                let stream = self.cur_related_item_path(did);
+                (format!("{stream}.to_vec()").into(), false)
+            }
+            (CodegenTy::Array(el, _), CodegenTy::Vec(t))
+                if **el == CodegenTy::Str && **t == CodegenTy::FastStr =>
+            {
+                let stream = self.cur_related_item_path(did);
+                (
+                    format!(
+                        "{stream}.iter().map(|s| ::pilota::FastStr::from_static_str(s)).collect::<::std::vec::Vec<_>>()"
+                    )
+                    .into(),
+                    false,
+                )
+            }
             _ => panic!("invalid convert {:?} to {:?}", ident_ty, target),
         }
     }
